@@ -203,6 +203,40 @@ def consumers(rep):
                              f'{name} of sort {env.get(name)}'})
 
 
+def stale_tables(rep):
+    """The tables must describe the script of the *last* collect_information:
+    after a constructor has been removed it is no default constant any more
+    (a sequence of two scripts, as in a run that accepts the removal)."""
+    from ddsmt import smtlib
+    from ddsmt.nodes import Node
+    for decl_kind in ('declare-datatype', 'declare-datatypes'):
+        def script(constrs):
+            if decl_kind == 'declare-datatype':
+                d = ['declare-datatype', 'Col', [[c] for c in constrs]]
+            else:
+                d = ['declare-datatypes', [['Col', '0']],
+                     [[[c] for c in constrs]]]
+            return [d, ['declare-const', 'c', 'Col'],
+                    ['assert', ['=', 'c', constrs[0]]]]
+        seen = []
+        for constrs in (['red', 'green', 'blue'], ['red', 'green'], ['red']):
+            exprs = [sexp.list_to_node(c, Node) for c in script(constrs)]
+            smtlib.collect_information(exprs)
+            rep.count('evaluations')
+            sort = exprs[1].data[2]
+            got = [str(c) for c in smtlib.get_default_constants(sort)]
+            got2 = [str(c) for c in smtlib.get_default_constants(
+                Node('Col'))]
+            for g in (got, got2):
+                if not set(g) <= set(constrs):
+                    rep.violation(f'stale-default-constants|{decl_kind}', {
+                        'brief': f'after re-collecting on a script whose '
+                                 f'datatype has constructors {constrs} the '
+                                 f'default constants are {g} (history: '
+                                 f'{seen})'})
+            seen.append(constrs)
+
+
 def main(tier):
     rep = common.Reporter(PROP, 'exploration', tier)
     _init()
@@ -224,6 +258,7 @@ def main(tier):
     for p in parts:
         rep.merge(p)
     consumers(rep)
+    stale_tables(rep)
     rep.set('terms_depth1', n1)
     rep.set('terms_depth2', n2)
     rep.set(
